@@ -61,6 +61,37 @@ func Main(c *hc.Ctx, prop string) error {
 			}()
 		}
 		wg.Wait()
+		// exhaustive exploration of tiny configurations
+		type tiny struct {
+			cfg  Config
+			runs int
+		}
+		w := Weights{1, 1, 1, 1, 1, 1, 1}
+		tinies := []tiny{{Config{Max: 1, Callers: 2, W: w, B: Budget{Cancel: 1, Die: 1, Retry: 0}, MaxSteps: 200}, c.N(2500, 400000)}}
+		if c.Thorough() {
+			tinies = append(tinies,
+				tiny{Config{Max: 1, Callers: 2, W: w, B: Budget{Cancel: 2, Die: 1, Retry: 1}, MaxSteps: 200}, 400000},
+				tiny{Config{Max: 2, Callers: 3, W: w, B: Budget{Cancel: 1, Die: 1, Retry: 0}, MaxSteps: 200}, 250000})
+		}
+		res := make([][]Outcome, len(tinies))
+		exh := make([]bool, len(tinies))
+		var wg2 sync.WaitGroup
+		for i, t := range tinies {
+			wg2.Add(1)
+			go func(i int, t tiny) {
+				defer wg2.Done()
+				res[i], exh[i] = Explore(t.cfg, expectBg, t.runs)
+			}(i, t)
+		}
+		wg2.Wait()
+		all := true
+		for i, t := range tinies {
+			c.Note("depth-first exploration of %s: %d schedule prefixes executed, exhausted=%v", t.cfg, len(res[i]), exh[i])
+			c.Count(fmt.Sprintf("dfs.%s.prefixes", t.cfg))
+			all = all && exh[i]
+			outs = append(outs, res[i]...)
+		}
+		c.Res.Exhaustive = all
 	}
 	// a watchdog may fire because the machine is overloaded: re-run that schedule before believing it
 	for i := range outs {
@@ -78,6 +109,70 @@ func Main(c *hc.Ctx, prop string) error {
 }
 
 func scheduleWithoutHang(s []string) []string { return s }
+
+// Explore enumerates the scheduler's choices of a tiny configuration depth first.  A node is a schedule
+// prefix; it is re-executed from scratch (the pool cannot be snapshotted), its state is identified by
+// the observed pool state + the enabled set + the remaining environment budget, and a state that was
+// seen before is not expanded again.  Every executed prefix is also a validated trace.
+func Explore(cfg Config, expectBg bool, maxRuns int) (outs []Outcome, exhausted bool) {
+	type node struct{ prefix []string }
+	stack := []node{{nil}}
+	seen := map[string]bool{}
+	runs := 0
+	for len(stack) > 0 {
+		if runs >= maxRuns {
+			return outs, false
+		}
+		nd := stack[len(stack)-1]
+		stack = stack[:len(stack)-1]
+		var lastEn []choice
+		var lastSum string
+		div := false
+		o := Execute(cfg, expectBg, func(step int, en []choice, sum string) *choice {
+			if step >= len(nd.prefix) {
+				lastEn, lastSum = en, sum
+				return nil
+			}
+			for _, c := range en {
+				if c.String() == nd.prefix[step] {
+					return &c
+				}
+			}
+			div = true
+			return nil
+		})
+		runs++
+		o.Diverged = div
+		outs = append(outs, o)
+		if div || o.Hung || len(lastEn) == 0 {
+			continue
+		}
+		var names []string
+		for _, c := range lastEn {
+			names = append(names, c.String())
+		}
+		b := cfg.B
+		for _, t := range nd.prefix {
+			switch {
+			case strings.HasPrefix(t, "ca:"):
+				b.Cancel--
+			case strings.HasPrefix(t, "di:"):
+				b.Die--
+			case strings.HasSuffix(t, ":retry"):
+				b.Retry--
+			}
+		}
+		key := fmt.Sprintf("%s|%s|%d/%d/%d", lastSum, strings.Join(names, ","), b.Cancel, b.Die, b.Retry)
+		if seen[key] {
+			continue
+		}
+		seen[key] = true
+		for i := len(names) - 1; i >= 0; i-- {
+			stack = append(stack, node{append(append([]string(nil), nd.prefix...), names[i])})
+		}
+	}
+	return outs, true
+}
 
 func parseInput(s string) (Config, []string, error) {
 	cfg := Config{MaxSteps: 400, B: Budget{Cancel: 99, Die: 99, Retry: 99}, W: Weights{1, 1, 1, 1, 1, 1, 1}}
